@@ -32,6 +32,8 @@ pub struct Mon {
     pub undelegated: BTreeMap<u64, (u64, u128)>,
     pub released_snap: BTreeMap<u64, basset::hub::UnbondHistoryResponse>,
     pub last_processed: u64,
+    /// validators taken out of the registry by a committed RemoveValidator and not added again
+    pub removed_validators: BTreeSet<String>,
     /// the unbonding period in force: the instantiated value, changed only by a committed
     /// UpdateParams that names the field (E2: the chain's unbonding time equals it)
     pub unbonding_model: Option<u64>,
@@ -111,6 +113,7 @@ impl Mon {
         misc::c12_plans(self, ctx, stats, out);
         misc::c12_probe(self, ctx, stats, out);
         misc::c13_remove_validator(self, ctx, stats, out);
+        misc::c13_after_removal(self, ctx, stats, out);
         reward::c14_c15_pool(self, ctx, stats, out);
         reward::c16_mirror(self, ctx, stats, out);
         reward::c17_dispatcher(self, ctx, stats, out);
